@@ -118,7 +118,7 @@ static const char *T_URL[] = {"%", "+", "a", "4", "G", " ", "\x80"};
 static const char *T_B64[] = {"A", "z", "=", "+", "/", "\n", "\xff"};
 static const char *T_HEX[] = {"0", "a", "F", "g", "\xff"};
 static const char *T_QRY[] = {"&", "=", "%", "+", "a", " "};
-static const char *T_INI[] = {"a", "b", "=", "${a}", "${b}", "${", "}", "$", "{", "[", "]", "#", "\n", " ", "${%E}", "${!x}", "a=${a}\n", "a=${b}\n", "b=x${a}${a}\n"};
+static const char *T_INI[] = {"a", "b", "=", "${a}", "${b}", "${", "}", "$", "{", "[", "]", "#", "\n", " ", "${%E}", "${!x}", "a=${a}\n", "a=${b}\n", "b=x${a}${a}\n", "${%}", "${!}"};
 static const char *T_INIF[] = {"@INCLUDE inc.conf", "@INCLUDE empty.conf", "@INCLUDE missing.conf", "@INCLUDE", " ", "\n", "a=b", "#", "${a}", "/", "inc.conf"};
 static const char *T_AC[] = {"a", " ", "\t", "'", "\"", "\\", "<", "</", ">", "\n", "#", "1", "On", "s"};
 
